@@ -147,14 +147,208 @@ def synth_field(spec):
     return f
 
 
+def masked_nested(nested, dtype):
+    """nested lists (cells x parts x nodes, or cells x nodes) with None for missing -> masked array"""
+    def walk(x):
+        if isinstance(x, list):
+            return [walk(y) for y in x]
+        return 0 if x is None else x
+
+    def mask(x):
+        if isinstance(x, list):
+            return [mask(y) for y in x]
+        return x is None
+    return np.ma.array(np.array(walk(nested), dtype=dtype), mask=np.array(mask(nested)))
+
+
+GEOM_STD = ["longitude", "latitude", "altitude"]
+GEOM_UNITS = ["degrees_east", "degrees_north", "m"]
+GEOM_AXIS = ["X", "Y", "Z"]
+
+
+def geom_field(spec):
+    """A hand-made field with geometry cells.
+
+    spec: {"p": name prefix, "gtype": "polygon"|"line"|"point",
+           "bounds": [per coordinate: cells x parts x nodes nested lists, None = missing],
+           "repr": [bool per coordinate: has representative values],
+           "ring": cells x parts nested list or None, "gm": bool (grid mapping over the geometry
+           coordinates), "time": bool (a second, time axis), "extra_aux": bool (a string-valued
+           auxiliary coordinate that is no geometry), "props": [bool per coordinate: keep the
+           properties (standard_name, units)], "geomvar": name of the geometry container or None}
+    """
+    p = spec["p"]
+    ncells = len(spec["bounds"][0])
+    f = cfdm.Field(properties={"standard_name": "precipitation_amount", "units": "kg m-2"})
+    f.nc_set_variable("pr" + p)
+    ax = f.set_construct(cfdm.DomainAxis(ncells))
+    f.domain_axis(ax).nc_set_dimension("inst" + p)
+    axes = [ax]
+    shape = [ncells]
+    if spec.get("time"):
+        t = f.set_construct(cfdm.DomainAxis(3))
+        axes.append(t)
+        shape.append(3)
+        tc = cfdm.DimensionCoordinate(properties={"standard_name": "time", "units": "days since 2000-01-01"},
+                                      data=cfdm.Data(np.arange(3.0)))
+        tc.nc_set_variable("time" + p)
+        f.set_construct(tc, axes=[t])
+    f.set_data(cfdm.Data(np.arange(float(np.prod(shape))).reshape(shape)), axes=axes)
+    keys = []
+    for k, nested in enumerate(spec["bounds"]):
+        a = cfdm.AuxiliaryCoordinate()
+        if spec.get("props", [True] * 3)[k]:
+            a.set_properties({"standard_name": GEOM_STD[k], "units": GEOM_UNITS[k]})
+        if spec["repr"][k]:
+            a.set_data(cfdm.Data(np.arange(ncells, dtype="f8") + 100 * (k + 1) + spec.get("offset", 0)))
+        a.nc_set_variable(["lon", "lat", "alt"][k] + p)
+        b = cfdm.Bounds(properties={"axis": GEOM_AXIS[k]})
+        b.set_data(cfdm.Data(masked_nested(nested, "f8")))
+        b.nc_set_variable(["x", "y", "z"][k] + p)
+        a.set_bounds(b)
+        a.set_geometry(spec["gtype"])
+        if spec.get("ring") is not None:
+            ir = cfdm.InteriorRing()
+            ir.set_data(cfdm.Data(masked_nested(spec["ring"], "i4")))
+            a.set_interior_ring(ir)
+        keys.append(f.set_construct(a, axes=[ax]))
+    if spec.get("extra_aux"):
+        a = cfdm.AuxiliaryCoordinate(properties={"long_name": "cell name"},
+                                     data=cfdm.Data(np.array([f"c{j}" for j in range(ncells)])))
+        a.nc_set_variable("cellname" + p)
+        f.set_construct(a, axes=[ax])
+    if spec.get("gm"):
+        cr = cfdm.CoordinateReference(
+            coordinates=keys[:2],
+            coordinate_conversion=cfdm.CoordinateConversion(parameters={"grid_mapping_name": "latitude_longitude"}),
+            datum=cfdm.Datum(parameters={"earth_radius": 6371007.0}))
+        cr.nc_set_variable("datum" + p)
+        f.set_construct(cr)
+    if spec.get("geomvar"):
+        f.nc_set_geometry_variable(spec["geomvar"])
+    return f
+
+
+LISTS = {0: [0, 2], 1: [1, 3], 2: [1, 2, 3], 3: [0, 2]}
+COUNTS = {0: [2, 1, 3], 1: [1, 3, 2], 2: [2, 1], 3: [1, 2], 4: [3, 1, 2]}
+
+
+def cmp_field(spec):
+    """A hand-made field whose data are stored compressed.
+
+    spec: {"p": prefix, "kind": "gath"|"cont"|"idx", "t": table entry, "sizes": [..] (gath only),
+           "pos": position of the compressed axes (gath only), "n": number of compressed axes,
+           "names": bool (set netCDF names on the list/count/index variable and sample dimension)}
+    """
+    p = spec["p"]
+    kind = spec["kind"]
+    if kind == "gath":
+        sizes = tuple(spec["sizes"])
+        pos, n = spec["pos"], spec["n"]
+        lst = [x for x in LISTS[spec["t"]] if x < int(np.prod(sizes[pos:pos + n]))]
+        cshape = sizes[:pos] + (len(lst),) + sizes[pos + n:]
+        comp = np.arange(int(np.prod(cshape)), dtype=float).reshape(cshape)
+        L = cfdm.List(data=cfdm.Data(np.array(lst)))
+        if spec.get("names"):
+            L.nc_set_variable("list" + p)
+        arr = cfdm.GatheredArray(compressed_array=cfdm.Data(comp), shape=sizes,
+                                 compressed_dimensions={pos: tuple(range(pos, pos + n))}, list_variable=L)
+    else:
+        counts = COUNTS[spec["t"]]
+        sizes = (len(counts), max(counts))
+        comp = np.arange(sum(counts), dtype=float)
+        if kind == "cont":
+            C = cfdm.Count(data=cfdm.Data(np.array(counts)))
+            if spec.get("names"):
+                C.nc_set_variable("count" + p)
+                C.nc_set_sample_dimension("obs" + p)
+            arr = cfdm.RaggedContiguousArray(compressed_array=cfdm.Data(comp), shape=sizes, count_variable=C)
+        else:
+            idx = np.repeat(np.arange(len(counts)), counts)
+            if spec.get("shuffle"):
+                idx = idx[::-1].copy()
+            ix = cfdm.Index(data=cfdm.Data(idx))
+            if spec.get("names"):
+                ix.nc_set_variable("index" + p)
+                ix.nc_set_sample_dimension("obs" + p)
+            arr = cfdm.RaggedIndexedArray(compressed_array=cfdm.Data(comp), shape=sizes, index_variable=ix)
+    f = cfdm.Field(properties={"long_name": "compressed " + p, "units": "K"})
+    f.nc_set_variable("t" + p)
+    axes = []
+    for j, n_ in enumerate(sizes):
+        da = cfdm.DomainAxis(n_)
+        if spec.get("dimnames"):
+            da.nc_set_dimension(spec["dimnames"][j])
+        axes.append(f.set_construct(da))
+    f.set_data(cfdm.Data(arr), axes=axes)
+    # a coordinate on the first axis so that fields can share (or not) their dimensions
+    c = cfdm.DimensionCoordinate(properties={"long_name": "first axis"},
+                                 data=cfdm.Data(np.arange(sizes[0], dtype="f8") + spec.get("coff", 0)))
+    if kind == "gath":
+        f.set_construct(c, axes=[axes[0]])
+    else:
+        a = cfdm.AuxiliaryCoordinate(properties={"long_name": "station"},
+                                     data=cfdm.Data(np.arange(sizes[0], dtype="f8") + spec.get("coff", 0)))
+        f.set_construct(a, axes=[axes[0]])
+        f.set_property("featureType", "timeSeries")
+    return f
+
+
+def cm_field(spec):
+    """A 2-d field with a cell measure that is internal or external.
+
+    spec: {"p": prefix, "name": netCDF name of the measure, "external": bool, "shape": [ny, nx], "off": number}
+    """
+    ny, nx = spec["shape"]
+    f = cfdm.Field(properties={"standard_name": "air_temperature", "units": "K"})
+    f.nc_set_variable("ta" + spec["p"])
+    ay = f.set_construct(cfdm.DomainAxis(ny))
+    ax = f.set_construct(cfdm.DomainAxis(nx))
+    f.set_data(cfdm.Data(np.arange(float(ny * nx)).reshape(ny, nx)), axes=[ay, ax])
+    for k, (a, n) in enumerate(((ay, ny), (ax, nx))):
+        c = cfdm.DimensionCoordinate(properties={"standard_name": ["latitude", "longitude"][k],
+                                                 "units": ["degrees_north", "degrees_east"][k]},
+                                     data=cfdm.Data(np.arange(float(n)) + spec.get("off", 0)))
+        f.set_construct(c, axes=[a])
+    m = cfdm.CellMeasure(measure="area", properties={"units": "m2"})
+    m.nc_set_variable(spec["name"])
+    if spec["external"]:
+        m.nc_set_external(True)
+    else:
+        m.set_data(cfdm.Data(np.ones((ny, nx)) + spec.get("off", 0)))
+    f.set_construct(m, axes=[ay, ax])
+    return f
+
+
 def build_field(fs):
     src = fs["src"]
     if src[0] == "example":
         f = cfdm.example_field(int(src[1]))
     elif src[0] == "domain":
         f = cfdm.example_field(int(src[1])).domain
+    elif src[0] == "geom":
+        f = geom_field(src[1])
+    elif src[0] == "cmp":
+        f = cmp_field(src[1])
+    elif src[0] == "cm":
+        f = cm_field(src[1])
+    elif src[0] == "dsg":
+        f = cfdm.example_field(int(src[1])).compress(src[2])
     else:
         f = synth_field(src[1])
+    ed = fs.get("geom_edit")
+    if ed:
+        # drop the representative values of some geometry coordinates / the grid mapping
+        for c in f.auxiliary_coordinates(todict=True).values():
+            if c.get_geometry(None) and c.get_property("standard_name", None) in ed.get("drop_repr", []):
+                c.del_data(None)
+        if ed.get("drop_gm"):
+            for k in list(f.coordinate_references(todict=True)):
+                f.del_construct(k)
+        if ed.get("shift"):
+            for c in f.auxiliary_coordinates(todict=True).values():
+                if c.has_bounds() and c.get_geometry(None):
+                    c.bounds.set_data(cfdm.Data(c.bounds.data.array + ed["shift"]), inplace=True)
     nv = fs.get("ncvar")
     if nv == "del":
         f.nc_del_variable(None)
@@ -232,6 +426,47 @@ def describe_input(f):
             e["external"] = bool(c.nc_get_external())
         cons.append(e)
     d["constructs"] = cons
+    # geometry cells: how the nodes are divided, which coordinates have representative values
+    geom = []
+    for key, c in f.auxiliary_coordinates(todict=True).items():
+        gt = c.get_geometry(None)
+        if gt is None or not c.has_bounds() or not c.bounds.has_data():
+            continue
+        arr = np.ma.asarray(c.bounds.data.array)
+        counts = np.ma.count(arr, axis=-1)
+        ring = None
+        ir = c.get_interior_ring(None)
+        if ir is not None and ir.has_data():
+            ring = [int(x) for x in np.ma.compressed(ir.data.array).tolist()]
+        geom.append({"key": key, "type": gt, "repr": bool(c.has_data()), "props": bool(c.properties()),
+                     "ncvar": c.nc_get_variable(None), "node_ncvar": c.bounds.nc_get_variable(None),
+                     "counts": np.atleast_2d(counts).tolist() if counts.ndim else [[int(counts)]],
+                     "bounds_ndim": int(arr.ndim), "ring": ring})
+    d["geom"] = geom
+    d["aux"] = [{"key": k, "ncvar": c.nc_get_variable(None), "has_data": bool(c.has_data()),
+                 "props": bool(c.properties()), "geometry": c.get_geometry(None),
+                 "has_bounds": bool(c.has_bounds())}
+                for k, c in f.auxiliary_coordinates(todict=True).items()]
+    gms = []
+    for k, cr in f.coordinate_references(todict=True).items():
+        if cr.coordinate_conversion.get_parameter("grid_mapping_name", None) is not None:
+            gms.append({"key": k, "ncvar": cr.nc_get_variable(None), "coords": sorted(cr.coordinates())})
+    d["grid_mappings"] = gms
+    d["geomvar"] = f.nc_get_geometry_variable(None) if hasattr(f, "nc_get_geometry_variable") else None
+    # compression by convention
+    cmpd = None
+    if isinstance(f, cfdm.Field) and f.has_data() and f.data.get_compression_type():
+        data = f.data
+        cmpd = {"type": data.get_compression_type()}
+        for nm, getter in (("list", "get_list"), ("count", "get_count"), ("index", "get_index")):
+            v = getattr(data, getter)(None)
+            if v is not None and v.has_data():
+                cmpd[nm] = [int(x) for x in np.ma.compressed(v.data.array).tolist()]
+        try:
+            cmpd["compressed_axes"] = [int(x) for x in data.get_compressed_axes()]
+        except Exception:
+            cmpd["compressed_axes"] = []
+    d["cmp"] = cmpd
     d["axes"] = {k: [int(a.get_size(0)), a.nc_get_dimension(None), bool(a.nc_is_unlimited())]
                  for k, a in f.domain_axes(todict=True).items()}
     return d
@@ -270,6 +505,22 @@ def describe_file(path):
             except Exception:
                 e["endian"] = None
             vs[n] = e
+        structural = set()
+        for n, e in vs.items():
+            at = e["attrs"]
+            if any(a in at for a in ("compress", "sample_dimension", "instance_dimension")):
+                structural.add(n)
+            for a in ("node_count", "part_node_count", "interior_ring"):
+                if a in at and at[a][0] == "s":
+                    structural.add(at[a][1])
+        for n in structural:
+            if n in vs and vs[n]["dtype"][0] in "iu":
+                v = nc.variables[n]
+                if v.size <= 20000:
+                    v.set_auto_maskandscale(True)
+                    arr = np.ma.asarray(v[...])
+                    e = vs[n]
+                    e["data"] = [None if x is None else int(x) for x in arr.ravel().tolist()]
         out["vars"] = vs
         return out
     finally:
@@ -325,10 +576,13 @@ def do_files(payload):
 # --------------------------------------------------------------------------
 def do_names(payload):
     for ops in payload["cases"]:
+        dry = bool(ops) and ops[0] == ["dry"]
+        if dry:
+            ops = ops[1:]
         w = NetCDFWrite(cfdm.CFDMImplementation())
-        # the state of a real (not dry) pass of a mode-"w" write
+        # the state of a real pass of a mode-"w" write, or of the dry run of a mode-"a" write
         w.write_vars = {"ncvar_names": set(), "ncdim_to_size": {}, "dimensions_with_role": {},
-                        "dry_run": False, "post_dry_run": False, "mode": "w"}
+                        "dry_run": dry, "post_dry_run": False, "mode": "a" if dry else "w"}
         g = w.write_vars
         out = []
         for op in ops:
@@ -339,7 +593,7 @@ def do_names(payload):
                     r = w._netcdf_name(op[1])
                     g["ncdim_to_size"][r] = op[2]
                 else:                        # a dimension with a role (bounds, strlen, node, part)
-                    r = w._netcdf_name(op[1], dimsize=op[2], role=op[3])
+                    r = w._netcdf_name(op[1], dimsize=op[2], role=op[3], **({"named": True} if len(op) > 4 and op[4] else {}))
                     if r not in g["ncdim_to_size"]:
                         g["ncdim_to_size"][r] = op[2]
                 out.append(r)
